@@ -310,7 +310,7 @@ func (h *hist) step() {
 func runHistory(r *vh.Run, i int) {
 	rng := r.Rand(i)
 	kind := []vh.StoreKind{vh.Mem, vh.Dir}[i%2]
-	u := vh.GenUniverse(rng, vh.UOpts{Algs: (i/2)%2 == 0, NArtifact: 6 + rng.Intn(5), OddAT: (i/4)%2 == 1, Tag: fmt.Sprint(i)})
+	u := vh.GenUniverse(rng, vh.UOpts{Algs: (i/2)%2 == 0, NArtifact: 6 + rng.Intn(5), OddAT: (i/4)%2 == 1, HotAnn: i%3 == 1, Tag: fmt.Sprint(i)})
 	if i%5 == 0 {
 		// one artifact whose descriptor alone exceeds small limits
 		big := strings.Repeat("x", 2500)
